@@ -138,6 +138,11 @@ class _OperationFunctionMaker(metaclass=GoogleDocstringInheritanceMeta):
             if self._first_operand.has_jac:
                 jac = self._compute_operation_jacobian
 
+        dim = self._first_operand.dim
+        if self._second_operand_is_func and dim and self._second_operand.dim:
+            # A scalar function is broadcast against a vector-valued one.
+            dim = max(dim, self._second_operand.dim)
+
         self.function = cls(
             self._compute_operation,
             self._compute_name(),
@@ -145,7 +150,7 @@ class _OperationFunctionMaker(metaclass=GoogleDocstringInheritanceMeta):
             jac=jac,
             expr=expr,
             input_names=input_names,
-            dim=self._first_operand.dim,
+            dim=dim,
             output_names=self._first_operand.output_names,
             original_name=first_operand.original_name
             if self._second_operand_is_number
